@@ -24,6 +24,10 @@ func init() {
 func runC01(r *core.Run) {
 	r.Rule("(a) seeded sequential adversarial histories (replay, duplicates with changed witness/dleq/amount, spent/pending proofs into swaps and melts, restarts) judged against the reference model plus stickiness probes; (b) controlled-scheduler enumeration of all interleavings, at DB/LN-call granularity, of two concurrent requests presenting the same proof (swap||swap, swap||melt, melt||melt, melt||checkstate) for each Lightning outcome; thorough adds sampled triples, free-running stress checked with porcupine and a -race pass. Non-trivial = a sequential operation that re-presented a used or locked secret, or a schedule in which both requests took a step before the other finished")
 	r.Assume("between two DB/LN calls a request touches no shared mutable state (DESIGN 1.1), so DB/LN-call interleavings are the observable ones; SQLite, LN model trusted")
+	if os.Getenv("VERIF_RACE_CHILD") != "" {
+		c01Stress(r) // the -race child repeats the concurrent workload only
+		return
+	}
 	c01Sequential(r)
 	if r.Violations() < 10 {
 		c01Pairs(r)
